@@ -10,7 +10,7 @@ import Cppcms.C12.Spec
 * `rq <flt> <contentType> <cl> <contentLimit> <multipartLimit> <memLimit> <diskOk> <bufSize> <query> <chunk>*` : whole request.
 * `hdrok <bytes>` : is the header block accepted as a whole, and read as what.
 * `enc <bkey> (<name> <filename> <mime> <data>)*` : `Spec.encode`.
-* `encform (<k> <v>)*` : `Spec.encodeForm`.
+* `encform (<k> <v>)*` : `Spec.encodeFormWith C15.urlencode`.
 All byte strings in hex (`-` = empty). -/
 open Cppcms Cppcms.C12
 
@@ -115,7 +115,7 @@ def step (_ : Unit) (line : String) : Unit × String :=
       | _, _ => "bad-op"
     | "encform" :: kvs =>
       match (hexList kvs).bind parsePairs with
-      | some l => toHex (Spec.encodeForm l)
+      | some l => toHex (Spec.encodeFormWith C15.urlencode l)
       | none => "bad-op"
     | _ => "bad-op"
   ((), r)
